@@ -54,8 +54,7 @@ def nsamp_producers(eng, A):
     return prods, names
 
 
-def rule_roles(eng, rep, A):
-    rule = "C03-1.evaluation-number-and-sample-count-provenance"
+def rule_roles(eng, rep, A, rule="C03-1.evaluation-number-and-sample-count-provenance"):
     vfg = eng.vfg
     nfw, nxw, _a, _b = A.counter_closures()
     ci, b = final_ctor(eng, A)
